@@ -37,6 +37,9 @@ Verdicts(o) ==
   ELSE IF ~o.case.valid THEN (IF o.status = 400 THEN {} ELSE {Fail("C14", "invalid-accepted", "")})
   ELSE IF o.status # 200 THEN {Fail("C14", "valid-rejected", "")}
   ELSE IF o.capped THEN {Fail("C14", "endless", "")}
+  (* every level of the series states a threshold for every criterion (the other clauses read them) *)
+  ELSE IF ~(\A k \in DOMAIN o.series : \A j \in DOMAIN o.case.lv.criteria : Has(o.series[k], o.case.lv.criteria[j].id))
+       THEN {Fail("C14", "level-without-threshold-for-a-criterion", "")}
   ELSE (IF Monotone(o) THEN {} ELSE {Fail("C14", "not-monotone", "")})
        \cup (IF ~o.case.exact THEN {}
              ELSE IF o.inexact > 0 THEN {Fail("C14", "off-grid", "")}
